@@ -1210,8 +1210,11 @@ def transform(fn, proceed, to_instrument=True, set_conformer=True):
     new_fn = _compile(filename, new_tree, freevars)
 
     fname = fn.__name__
-    save = glb.get(fname, None)
-    exec(new_fn, glb, glb)
+    # The new function must have glb as its globals, but its definition (and
+    # #WRAP) must not land there, even for a moment: fname is the public name
+    # of the function, another thread may be looking it up right now.
+    defined = {}
+    exec(new_fn, glb, defined)
 
     try:
         from codefind import code_registry
@@ -1235,20 +1238,17 @@ def transform(fn, proceed, to_instrument=True, set_conformer=True):
         pass
 
     # Get the new function (populated with exec)
-    if "#WRAP" in glb:
+    if "#WRAP" in defined:
         # If the function is a closure, we have created a function
         # called #WRAP that takes the closure variables as arguments
         # and returns the function that interests us.
-        actual_fn = glb.pop("#WRAP")(
+        actual_fn = defined["#WRAP"](
             *[cell.cell_contents for cell in fn.__closure__]
         )
     else:
-        actual_fn = glb[fname]
+        actual_fn = defined[fname]
 
     glb[fnsym] = actual_fn
-
-    # However, we don't want to change the existing mapping of fn
-    glb[fname] = save
 
     all_vars = transformer.used | transformer.assigned
 
